@@ -130,6 +130,8 @@ def run(ctx):
         bad = check_one(ctx, p, out)
         if bad:
             ctx.fail(bad[0], {"path": p, "result": out}, bad[1])
+        elif si.canonicalize(out) != out:  # theorem idempotent
+            ctx.fail("not-idempotent", {"path": p, "result": out}, "canonicalize(result) = %r" % si.canonicalize(out))
         if i % 7 == 0 or i >= n_exh:
             root = ROOTS[i % len(ROOTS)]
             walk_reqs.append("walk %s %s" % (hx(root.encode()), hx(p.encode("utf-8"))))
@@ -180,7 +182,7 @@ META = {
               "occurs exactly when p itself starts with two but not three slashes (double_slash_iff — POSIX's "
               "double-slash root, preserved by normpath); for every root string, root ++ canonicalize(p) splits into "
               "root's own components followed by a walk that never climbs above depth 0 (inside_root, "
-              "never_climbs). Tied to sftp_si.py by exhaustive (all 9841 strings over {'/','.','a'}^<=8) and random "
+              "never_climbs); canonicalize is idempotent (idempotent). Tied to sftp_si.py by exhaustive (all 9841 strings over {'/','.','a'}^<=8) and random "
               "differential runs of the real canonicalize, and through the REALPATH request of a real session."),
     "note": ("Trusted: Lean kernel + 3 standard axioms; posixpath.normpath/isabs (C implementation, compared with the "
              "model on every case); UTF-8 self-synchronisation; the harness. Containment is lexical (components), "
